@@ -113,7 +113,18 @@ def bind(rng, name, args, kw=None, p_pos=P_POS, p_kw=P_KW):
     return args, kw, "plain"
 
 
+def _names(rng, a, k):
+    """string-valued arguments (strategy, rule, method, direction names) are handed over as the literal or as an equal
+    string that is another object / a numpy.str_ / a str subclass (gen.fresh_str): equality, not identity, is the contract"""
+    from . import gen
+    a = [gen.fresh_str(rng, v) if isinstance(v, str) else v for v in a]
+    k = {key: (gen.fresh_str(rng, v) if isinstance(v, str) else v) for key, v in k.items()}
+    return a, k
+
+
 def call(rng, fn, name, args, kw=None, **opts):
     a, k, form = bind(rng, name, args, kw, **opts)
+    if rng is not None:
+        a, k = _names(rng, a, k)
     FORMS[form] += 1
     return fn(*a, **k)
